@@ -29,7 +29,7 @@ for pid in props:
     })
 m = {
     "version": 1,
-    "setup_cmd": "cd lean && lake build",
+    "setup_cmd": "./tools/setup.sh",
     "hooks": {
         "guard": "PYIRON_WORKFLOW_VERIF",
         "enable": "none needed: all instrumentation is applied from the harness process (module attribute rebinding, class-level wrappers, a custom Executor); the checks export PYIRON_WORKFLOW_VERIF=1 but /repo contains no guarded code",
